@@ -42,7 +42,7 @@ _CFG = {
     "C01": {"scenarios": ["fold", "term"], "streams": [PTRACE], "trusted": RUNTIME_TRUST},
     "C02": {"scenarios": ["cmds"], "streams": [PTRACE], "trusted": RUNTIME_TRUST},
     "C03": {"scenarios": ["seq"], "trusted": RUNTIME_TRUST},
-    "C04": {"scenarios": ["term"], "streams": [LIFE], "trusted": RUNTIME_TRUST},
+    "C04": {"scenarios": ["term", "pty"], "streams": [LIFE], "trusted": RUNTIME_TRUST},
     "C05": {"scenarios": ["modes", "exec", "pty"], "streams": [GLUE], "trusted": RENDER_TRUST},
     "C06": {"streams": [RENDER, VT], "rule": RENDER_RULE, "trusted": RENDER_TRUST},
     "C07": {"streams": [RENDER], "scenarios": ["final"], "rule": RENDER_RULE, "trusted": RENDER_TRUST},
